@@ -125,7 +125,19 @@ class StmtMixin:
 
     def exec_Assign(self, node, st):
         ctx = self.new_ctx(st)
-        self.set_hints(node.targets[0], st)
+        t0 = node.targets[0]
+        if (len(node.targets) == 1 and isinstance(t0, (ast.Tuple, ast.List)) and isinstance(node.value, (ast.Tuple, ast.List))
+                and len(t0.elts) == len(node.value.elts) and not any(isinstance(e, ast.Starred) for e in t0.elts + node.value.elts)):
+            # a, b = x, y: the right-hand sides are evaluated first (left to right, each typed by its own target), then assigned
+            vals = []
+            for t, e in zip(t0.elts, node.value.elts):
+                self.set_hints(t, st)
+                vals.append(self.ev(e, st, ctx))
+                self.clear_hints()
+            for t, v in zip(t0.elts, vals):
+                self.assign(t, v, st, ctx, node)
+            return self.split(st, ctx, node) + [st]
+        self.set_hints(t0, st)
         v = self.ev(node.value, st, ctx)
         self.clear_hints()
         for t in node.targets:
